@@ -1,6 +1,7 @@
 """C01 — version comparison follows PMS and is a total preorder (structural clauses)."""
 import ast
 
+from ..core import generic as G
 from ..core import astutil as A
 from ..core import boolx, rx
 from ..core.model import dotted
@@ -263,6 +264,12 @@ def run(ctx):
               "other operators take their sign set from the table, droprev False", node=ti)
     ctx.floor("R3", 9)
 
+    # ---- R6 comparison is a function of its operands: no writes to shared objects ------------------------------
+    cmp_methods = [q for q in ("CPV.__eq__", "CPV.__ne__", "CPV.__lt__", "CPV.__le__", "CPV.__gt__", "CPV.__ge__", "CPV.__hash__") if P.func_opt("pkgcore.ebuild.cpv", q)]
+    rev_methods = [f.qual for f in cpv.funcs.values() if f.qual.startswith("Revision.__") and f.name in ("__eq__", "__lt__", "__le__", "__gt__", "__ge__", "__hash__")]
+    G.pure(ctx, "R6", [("pkgcore.ebuild.cpv", q, (), "a comparison that edits shared data answers differently the next time it is asked") for q in ["ver_cmp"] + cmp_methods + rev_methods]
+           + [("pkgcore.ebuild.restricts", "_VersionMatch.match", (), "matching must not change the restriction or the package")])
+    ctx.floor("R6", 10)
 
 MUTANTS = [
     {"name": "suffix-order-swap", "file": "src/pkgcore/ebuild/cpv.py", "old": '"pre": -2, "p": 1, "alpha": -4, "beta": -3, "rc": -1', "new": '"pre": -1, "p": 1, "alpha": -4, "beta": -3, "rc": -2', "rule": "R1"},
@@ -273,6 +280,10 @@ MUTANTS = [
     {"name": "group2-uncoerced", "file": "src/pkgcore/ebuild/cpv.py", "old": 'return cmp(0, int("0" + match.group(2)))', "new": 'return cmp(0, int(match.group(2) or 1))', "rule": "R1"},
     {"name": "le-fallback-nonstrict", "file": "src/pkgcore/ebuild/cpv.py", "old": "                        <= 0\n                    )\n                return self.package < other.package", "new": "                        <= 0\n                    )\n                return self.package > other.package", "rule": "R2"},
 ]
+MUTANTS += [
+    {"name": "split-memoised-in-module-dict", "file": "src/pkgcore/ebuild/cpv.py", "old": '        ver_parts1 = parts1[0].split(".")\n', "new": '        ver_parts1 = suffix_value.setdefault(parts1[0], parts1[0].split("."))\n', "rule": "R6"},
+]
 TWINS = [
+    {"name": "split-copied-from-memo", "file": "src/pkgcore/ebuild/cpv.py", "old": '        ver_parts1 = parts1[0].split(".")\n', "new": '        ver_parts1 = list(suffix_value.get(parts1[0], parts1[0].split(".")))\n'},
     {"name": "rename-local", "file": "src/pkgcore/ebuild/cpv.py", "old": "            c = cmp(v1, v2)\n            if c:\n                return c\n", "new": "            res = cmp(v1, v2)\n            if res:\n                return res\n"},
 ]
